@@ -390,7 +390,7 @@ def t1(ctx, cfgs):
     d = ctx.sub("t1")
     for c in cfgs:
         for rep, props, name in c["runs"]:
-            cover = name == "repaired"
+            cover = c.get("cover") == name
             res = tlc.run_tlc(
                 "MCEffectConflicts",
                 T1_CFG % {"level": c["level"], "nt": c["nt"], "maxops": c["maxops"], "rep": rep, "props": props},
@@ -534,13 +534,13 @@ def run(ctx):
     runs = [("FALSE", T1_ALL, "as-written"), ("FALSE", T1_ORDER, "as-written-order"), ("TRUE", T1_ALL, "repaired")]
     if q:
         cfgs = [
-            dict(level=2, nt=1, maxops=3, runs=runs),
-            dict(level=1, nt=2, maxops=3, runs=runs[2:]),
+            dict(level=2, nt=1, maxops=3, runs=[runs[0], runs[2]]),
+            dict(level=1, nt=2, maxops=3, runs=[runs[1]], cover="as-written-order"),
         ]
     else:
         cfgs = [
             dict(level=2, nt=1, maxops=4, runs=[runs[0], runs[2]]),
-            dict(level=1, nt=1, maxops=5, runs=runs[1:]),
+            dict(level=1, nt=1, maxops=5, runs=runs[1:], cover="repaired"),
             dict(level=1, nt=2, maxops=4, runs=runs[2:]),
         ]
     t1res = t1(ctx, cfgs)
